@@ -11,6 +11,24 @@ BASE_NOTE = ("Trusted base: rustc front end/MIR construction as dumped by engine
              "crates assumed total. ")
 
 CLAIMS = {
+    "C17": dict(
+        category="other",
+        technique="zone-domain (difference constraints) abstract interpretation of the line editor's MIR under a struct invariant, all paths; reconstruction of the nom combinator tree from MIR compared with the documented command table (token-sequence language equality, ordered-choice shadowing by automata product); abstract interpretation of the dispatch functions with recording stand-ins",
+        text=("(A) InputState::handle / next_completion / previous_completion / complete: every panic-capable site (checked "
+              "arithmetic, Vec insert/remove/index, remainder, expect) is safe under the invariant cursor <= text length, history "
+              "index < history length, completion index < list length; the invariant holds again at every return and before every "
+              "sibling call; the constructor establishes it; only these methods write the fields; the editor's unreachable!() arm is "
+              "not reachable from the dispatch. (B) parse_cmd's combinator expression, reconstructed from MIR (closures evaluated "
+              "symbolically), expands to exactly the documented 548 token-sequence alternatives with the documented command value "
+              "(case-insensitive keywords, checked u8 conversions in bases 16/2/10, usize counts), no alternative shadows a later "
+              "one, the whole line must be consumed. (C) Tui::handle_input maps every Command to exactly the documented machine "
+              "call with its payload; CTRL+A/W/E/R/L/C and Enter act as documented, other keys do nothing, a notification swallows "
+              "the key, an invalid line only raises a notification."),
+        note=("Two genuine defects found and fixed (byte slicing in the completion; trailing input accepted: 'FC = 0x1FF' set FC "
+              "to 0). NOT decided: that drawing never fails at every terminal size - InputWidget::render mixes byte and char "
+              "offsets and subtracts from the area width; its safety depends on layout values computed inside the tui crate and on "
+              "the text being ASCII; rustyline's file-name completer; the event loop."),
+        design="3/C17"),
     "C04": dict(
         category="other",
         technique="micro-CFG analysis of where the interrupt inputs influence sequencing + symbolic register-transfer evaluation of every interrupted micro-path + abstract interpretation of the flip-flop's writers, of the enable gate and of one clock edge per control word",
